@@ -333,6 +333,7 @@ func readContracts(path string) (*tables, error) {
 // ---------------------------------------------------------------- translation state
 
 type fnOut struct {
+	needsClean bool // (transitively) reaches tasks.Wait(): only callable by a thread that owns no task
 	name     string
 	api      bool
 	cases    []caseC
@@ -1423,6 +1424,9 @@ func (t *tr) callNoArgs(c *ast.CallExpr) Stmt {
 					return t.act(pos, "ATasksDone")
 				case kind == "plain" && (o.Name() == "Add" || o.Name() == "Done"):
 					return sSkip{}
+				case kind == "obligations" && o.Name() == "Wait":
+					// waits for every task: the waiting thread must own none itself
+					return t.act(pos, "AWaitTasks")
 				case kind != "" && o.Name() == "Wait":
 					return t.act(pos, "AWait")
 				}
@@ -1670,6 +1674,33 @@ func main() {
 			f.body = prune(g, f, f.body)
 		}
 	}
+	// functions that (transitively, through calls) reach Conn.tasks.Wait(): they only get the
+	// "clean" contract cases (entered by a thread none of whose frames owns a task obligation);
+	// every other function gets each case twice, clean and not clean
+	for _, f := range g.fns {
+		if f.body != nil {
+			walk(f.body, func(x Stmt) {
+				if a, ok := x.(sAct); ok && a.a == "AWaitTasks" {
+					f.needsClean = true
+				}
+			})
+		}
+	}
+	for changed := true; changed; {
+		changed = false
+		for _, f := range g.fns {
+			if f.needsClean || f.body == nil {
+				continue
+			}
+			walk(f.body, func(x Stmt) {
+				if c, ok := x.(sCall); ok {
+					if cf := g.fns[c.f]; cf != nil && cf.needsClean && !f.needsClean {
+						f.needsClean, changed = true, true
+					}
+				}
+			})
+		}
+	}
 	// doc-comment cross-check
 	for _, f := range g.fns {
 		if !f.relevant || f.doc == "" {
@@ -1886,6 +1917,9 @@ func emit(g *global, hashes []string, defName string) string {
 				es = append(es, fmt.Sprintf("mkE %d %s %d", e.out, locksCoq(e.st), e.tasks))
 			}
 			cs = append(cs, fmt.Sprintf("mkC %s %d [%s]", locksCoq(c.entry), c.need, strings.Join(es, "; ")))
+			if !f.needsClean {
+				cs = append(cs, fmt.Sprintf("mkCn %s %d [%s]", locksCoq(c.entry), c.need, strings.Join(es, "; ")))
+			}
 		}
 		body := "None"
 		if f.hasBody {
